@@ -47,15 +47,12 @@ pub fn filter(r: u8) -> LevelFilter {
     }
 }
 
-/// order- and length-sensitive hash of a short name (computed at compile time for the
-/// expected side, by the same straight-line loop at run time for the observed side)
+/// loop-free signature of a short name: (length, first byte, last byte). Corpus names are
+/// chosen so that every name that can legally appear in one harness has a distinct signature.
 pub const fn sh(s: &str) -> u32 {
     let b = s.as_bytes();
-    let mut h: u32 = 0x811c_9dc5 ^ (b.len() as u32);
-    let mut i = 0;
-    while i < b.len() {
-        h = (h ^ (b[i] as u32)).wrapping_mul(0x0100_0193);
-        i += 1;
+    if b.len() == 0 {
+        return 0;
     }
-    h
+    ((b.len() as u32) << 16) | ((b[0] as u32) << 8) | (b[b.len() - 1] as u32)
 }
